@@ -273,7 +273,7 @@ func c09Quiescent(c *lab.Ctx, e *engine, proto string, when string) {
 			}
 			var port int
 			fmt.Sscanf(addr[strings.LastIndex(addr, ":")+1:], "%d", &port)
-			isOurs := false
+			isOurs := addr == e.dead // the pool of the address nobody listens on: every dial fails, it never owns a connection
 			for _, u := range e.ups {
 				if u.port() == port {
 					isOurs = true
